@@ -163,7 +163,8 @@ def check_axioms(U, sup, eq, rep):
     any_i = idx['Any']; none_i = idx['None']
     for i in nofun:
         m = U[i][1]
-        nullable_or_none = m['kind'] in ('nullable', 'none') or (m['kind'].startswith('union') and 'None' in m.get('members', ()))
+        # `None` itself is a class of the default context and not of the form T?: Any is above it (only T? and unions with None are exempt)
+        nullable_or_none = m['kind'] == 'nullable' or (m['kind'].startswith('union') and 'None' in m.get('members', ()))
         if not nullable_or_none:
             if S(any_i, i) != '1':
                 viol('any-top', i)
